@@ -100,3 +100,38 @@ Definition c20_search (m : rmodel) : list (nat * nat * nat) :=
         | (c, Returned v) => match find_applied s c with Some v' => if v =? v' then [] else [(2, fst c, snd c)] | None => [(2, fst c, snd c)] end
         | _ => [] end) (c_rets cl)) (clients s)
   ++ flat_map (fun tc => match c_pc (snd tc) with Ready | Dead => [] | _ => [(3, fst tc, 0)] end) (combine (seq 0 3) (clients s)).
+
+(* ---- the probe harness scenarios, for model / implementation correspondence ---- *)
+(* outcome class of a client's single call: 0 returned, 1 panicked, 2 still inside the call (hung), 3 nothing recorded *)
+Definition outcome_class (cl : @client nat) : nat :=
+  match c_pc cl with
+  | Sending _ _ _ _ | Waiting _ _ | StopSend _ _ _ | StopWait _ _ _ => 2
+  | _ => match c_rets cl with
+         | (_, Panicked) :: _ => 1
+         | (_, Returned _) :: _ | (_, RetUnit) :: _ => 0
+         | _ => 3 end
+  end.
+Definition twice (t : nat) : list choice := [Cl t; Cl t].
+
+(* `fault boom_first`: the actor is parked in hold (taken, not finished); boom is queued; wn value-returning adds are sent
+   (queued, or blocked on a full queue); the gate opens: hold finishes, boom is taken and panics; the in-flight callers run
+   on; then `later` callers arrive, alternately fire-and-forget tick and value-returning get.  Result: outcome class per
+   add caller, then per later caller. *)
+Definition fault_scn (m : rmodel) (interleave : bool) (k_hold k_boom k_add k_tick k_get wn later : nat) : list nat :=
+  let progs := ([Call k_hold []], 1) :: ([Call k_boom [999]], 1)
+               :: map (fun i => ([Call k_add [i; 0; 1]], 1)) (seq 0 wn)
+               ++ map (fun j => ([if Nat.even j then Call k_tick [j; 1] else Call k_get []], 1)) (seq 0 later) in
+  let adds := seq 2 wn in
+  let laters := seq (2 + wn) later in
+  let sched := twice 0 ++ [Ac] ++ twice 1 ++ flat_map twice adds
+               ++ [Ac; Ac] ++ (if interleave then map Cl adds else []) ++ [Ac]   (* hold returns, boom is taken, [blocked senders may slip in,] boom panics *)
+               ++ flat_map (fun t => [Cl t; Cl t; Cl t]) adds
+               ++ flat_map (fun t => [Cl t; Cl t; Cl t]) laters in
+  let s := @run nat nat (fun k a vs => if k =? k_boom then None else sem0 k a vs) sem_slf0 0 m 0 progs sched in
+  map (fun t => match nth_error (clients s) t with Some cl => outcome_class cl | None => 3 end) (adds ++ laters).
+
+(* `burst`: the actor is parked in hold; k callers send one fire-and-forget tick each: how many have returned *)
+Definition burst_scn (m : rmodel) (k_hold k_tick k : nat) : nat :=
+  let progs := ([Call k_hold []], 1) :: map (fun i => ([Call k_tick [i; 0]], 1)) (seq 0 k) in
+  let s := run0 m 0 progs (twice 0 ++ [Ac] ++ flat_map (fun t => [Cl t; Cl t; Cl t]) (seq 1 k)) in
+  length (filter (fun cl => Nat.eqb (outcome_class cl) 0) (skipn 1 (clients s))).
